@@ -145,7 +145,7 @@ fn get_attribute_args(attribute: &GrammarAttribute) -> Vec<String> {
 impl From<&GrammarSliceFile> for SliceFile {
     fn from(slice_file: &GrammarSliceFile) -> Self {
         // Convert the slice_file's module declaration.
-        // TODO this crashes on an empty Slice file, we need to filter out empty files at an earlier stage.
+        // Files without a module declaration are filtered out before conversion, so it's safe to unwrap here.
         let module = slice_file.module.as_ref().unwrap().borrow();
         let converted_module = Module {
             identifier: module.nested_module_identifier().to_owned(),
